@@ -8,10 +8,11 @@ import warnings
 import numpy as np
 
 from . import common
+from . import c09_obs as ob
 from .common import Corr
 
 ID = "C09"
-LEAN_MODULES = ["TempestVerif.Props.C09"]
+LEAN_MODULES = ["TempestVerif.Props.C09", "TempestVerif.Props.C09Run", "TempestVerif.Props.C09Sites", "TempestVerif.Props.C09Graph"]
 RULE = ("(a) call-site cross-check: sampler runs (clustering on/off, both kernels, both resamplers, a -inf prior region) and "
         "clustering fits with every numpy.random attribute wrapped; each observed (file, line) must be in the static RNG "
         "effect table G3. (b) seeded determinism predicted by the model (program = seedArg :: draws): the same random_state "
@@ -19,17 +20,50 @@ RULE = ("(a) call-site cross-check: sampler runs (clustering on/off, both kernel
         "lattice. (c) no-reset predicted by the model (program without seedLit is injective in the pre-state): for each "
         "library operation (GMM fit, HGMM fit, from_particles, one sampler iteration with clustering on/off, "
         "systematic_resample) and two different ambient seeds the first draws afterwards differ. "
-        "Non-trivial = configuration with clustering on or a distinct operation/seed pair.")
-MODELLED = ["MT19937 is an abstract generator (state type with `next`, `seed`); injectivity of its step is an assumption of C09_no_reseed_injective",
-            "draws made inside worker processes of a pool are not observed"]
-ASSUMPTIONS = ["all draws go through numpy.random module attributes or a private RandomState (G3 fails loudly on any other source)"]
+        "Non-trivial = configuration with clustering on or a distinct operation/seed pair. "
+        "(d) plumbing: random_state in {None, 0, 1, 7, 2^32-1} reaches config / property / checkpoint unchanged. "
+        "(e) iteration-requests: real runs over the configuration lattice (clustering on/off x tpcn/rwm x mult/syst, a -inf prior "
+        "region, a bimodal target that triggers cluster splits) with every numpy.random attribute and the RandomState constructor "
+        "wrapped at VALUE granularity; for every iteration the observables (warm-up?, outside/inside-support counts, refit?, "
+        "mixture fits, label-group sizes, trimmed pool size, MCMC sweeps) are taken from sources independent of the RNG log and "
+        "the model program `Model.RngSites.iteration` is executed on them by the driver: the run-length-encoded event sequences "
+        "(kinds, counts, private vs process-wide, seedings) must be identical, per iteration and for the whole run "
+        "(`Model.RngRun.runSampling`), and so must the iteration start positions. Non-trivial = annealing iteration or warm-up "
+        "iteration with replacement picks. (f) stream-replay: every process-wide call of a seeded (resp. unseeded) real run is "
+        "replayed, same function and arguments, on a fresh RandomState(seed) (resp. a generator put to the ambient state): "
+        "bit-identical values and identical final generator state (so no draw or seeding escaped the wrappers), pairwise "
+        "distinct generator states at iteration starts. (g) fits: get_state() before/after clustering fits and predictions. "
+        "(h) resume: a writer run with save_every=1 and runs resumed from its first / middle / last checkpoint: the generator "
+        "state right after load equals the state the writer had when it saved, the resumed run's event log (one restore, then "
+        "the iterations) and absolute stream positions equal the model's (`c09.run resume=at:k`), it is bit-identical to the "
+        "uninterrupted run and independent of ambient stream and constructor seed; a checkpoint without stored position "
+        "continues the ambient stream. "
+        "(i) call-graph: call edges observed with sys.setprofile on real runs must be in the static graph of G3b. "
+        "(j) pool: a pool with an order-preserving map gives the serial fingerprint.")
+MODELLED = ["MT19937 is an abstract generator: any family of deterministic state transformers `next k` (one per request kind) and a "
+            "seeding map; nothing about its period or equidistribution is proved",
+            "no-cycle hypothesis of C09_iteration_starts_distinct / C09_sampler_iterations_never_replay (the stream does not return "
+            "to an earlier state within a run; MT19937 period 2^19937-1): assumption, checked on every stream-replay case "
+            "(generator states at iteration starts pairwise distinct)",
+            "hypothesis `hfirst` of C09_different_seeds_differ / C09_run_different_seeds_differ (first value of two seeds differs): "
+            "assumption about MT19937, checked for the seed pairs of suite seeded-run-deterministic",
+            "the numerics of an iteration (weights, BIC decisions, acceptance test, step-count rule) are the abstract `Numerics` of "
+            "Model.RngSites: pure functions of the data state and of the numbers drawn so far",
+            "user functions (prior_transform, log_likelihood) are pure and draw nothing from the process-wide stream",
+            "draws made inside worker processes of a pool are not observed; `pool.map` is assumed to return results in input order",
+            "the call graph of G3b is an over-approximation built by name / inferred receiver class; its soundness is checked "
+            "dynamically (suite call-graph), not proved"]
+ASSUMPTIONS = ["all draws go through numpy.random module attributes or a private RandomState (G3 fails loudly on any other source; "
+               "suite stream-replay compares the final generator state, so a process-wide draw that bypassed the wrappers is detected)",
+               "random_state is None or an integer in [0, 2^32-1] (np.random.seed raises otherwise; SamplerConfig does not validate it)"]
 
-WRAPPED = ["seed", "rand", "randn", "random", "random_sample", "gamma", "choice", "uniform", "normal", "randint", "permutation", "shuffle"]
+WRAPPED = ["seed", "rand", "randn", "random", "random_sample", "gamma", "choice", "uniform", "normal", "randint", "permutation", "shuffle",
+           "get_state", "set_state"]
 
 
 def translators():
-    from translate import g3_rng
-    return [g3_rng.generate()]
+    from translate import g3_rng, g3_graph
+    return [g3_rng.generate(), g3_graph.generate()]
 
 
 def _quiet():
@@ -50,10 +84,23 @@ def trace_rng(log):
                 log.add((os.path.relpath(fn, root), f.f_lineno, name))
             return real(*a, **k)
         return w
+    real_rs = np.random.RandomState
+
+    class TracedRandomState(real_rs):
+        """a genuine RandomState (isinstance checks keep working) whose construction site is logged"""
+
+        def __init__(self, *a, **k):
+            f = sys._getframe(1)
+            fn = os.path.realpath(f.f_code.co_filename)
+            if fn.startswith(root):
+                log.add((os.path.relpath(fn, root), f.f_lineno, "RandomState"))
+            super().__init__(*a, **k)
     try:
         for n in WRAPPED:
             saved[n] = getattr(np.random, n)
             setattr(np.random, n, mk(n, saved[n]))
+        saved["RandomState"] = real_rs
+        np.random.RandomState = TracedRandomState
         yield
     finally:
         for n, v in saved.items():
@@ -62,6 +109,11 @@ def trace_rng(log):
 
 def _like_half(x):
     return -np.inf if x[0] < -3.5 else -0.5 * float(np.sum(x ** 2))
+
+
+def _like_tiny(x):
+    # support = 1/80 of the prior cube in one coordinate: most warm-up batches of 24 hold no finite draw and are redrawn
+    return -np.inf if x[0] < 3.9 else -0.5 * float(np.sum((x - 3.95) ** 2))
 
 
 def _like_bimodal(x):
@@ -85,7 +137,9 @@ def _sampler(clustering, kernel, resample, random_state=None, like=None, d=2, **
 def _fingerprint(s):
     st = s.state
     h = [st.get_history("u", flat=True).tobytes(), st.get_history("logl", flat=True).tobytes(),
-         np.asarray(st.get_history("beta")).tobytes(), np.asarray(st.get_history("logz")).tobytes()]
+         np.asarray(st.get_history("beta")).tobytes(), np.asarray(st.get_history("logz")).tobytes(),
+         st.get_history("x", flat=True).tobytes(), np.asarray(st.get_history("calls")).tobytes(),
+         np.asarray(st.get_history("acceptance"), dtype=float).tobytes()]
     x, w, l = s.posterior()
     return common.digest([b.hex() for b in h] + [w.tobytes().hex(), repr(s.evidence()[0])])
 
@@ -112,6 +166,16 @@ def suite_sites(tier):
         c.case(("run", clustering, kernel, resample), True)
     from tempest.cluster import HierarchicalGaussianMixture, GaussianMixture
     from tempest.tools import systematic_resample
+    # a seeded run that writes checkpoints, and a run resumed from one: the seeding, get_state and set_state sites
+    import tempfile
+    with tempfile.TemporaryDirectory() as d, trace_rng(log):
+        s1 = _sampler(False, "rwm", "syst", random_state=3, output_dir=d, output_label="cs")
+        with _quiet(), warnings.catch_warnings():
+            warnings.simplefilter("ignore")
+            s1.run(n_total=48, progress=False, save_every=2)
+            _sampler(False, "rwm", "syst", random_state=3, output_dir=d, output_label="cs2").run(
+                n_total=48, progress=False, resume_state_path=os.path.join(d, "cs_2.state"))
+    c.case("seeded-run-with-checkpoints-and-resume", True)
     rng = np.random.RandomState(1)
     X = np.vstack([rng.randn(50, 2) * 0.05 + 0.3, rng.randn(50, 2) * 0.05 + 0.7])
     with trace_rng(log):
@@ -134,20 +198,24 @@ def suite_sites(tier):
 def repro_violations(configs):
     bad = []
     for cfg in configs:
-        clustering, kernel, resample, seed_a, seed_b = cfg
+        clustering, kernel, resample, seed_a, seed_b = cfg[:5]
+        like_tag = cfg[5] if len(cfg) > 5 else None
+        lk = {"tiny": _like_tiny, "half": _like_half}.get(like_tag)
         fps = []
         for ambient in (101, 202):
             np.random.seed(ambient)
-            fps.append(_fingerprint(_run(_sampler(clustering, kernel, resample, random_state=seed_a))))
+            fps.append(_fingerprint(_run(_sampler(clustering, kernel, resample, random_state=seed_a, like=lk))))
         if fps[0] != fps[1]:
             bad.append({"what": f"two samplers constructed with random_state={seed_a} on the same inputs gave different histories/weights/evidence",
-                        "config": {"clustering": clustering, "kernel": kernel, "resample": resample}, "random_state": seed_a})
+                        "config": {"clustering": clustering, "kernel": kernel, "resample": resample}, "random_state": seed_a,
+                        "repro_like": like_tag})
             continue
         np.random.seed(101)
-        other = _fingerprint(_run(_sampler(clustering, kernel, resample, random_state=seed_b)))
+        other = _fingerprint(_run(_sampler(clustering, kernel, resample, random_state=seed_b, like=lk)))
         if other == fps[0]:
             bad.append({"what": f"random_state={seed_a} and random_state={seed_b} gave bit-identical runs",
-                        "config": {"clustering": clustering, "kernel": kernel, "resample": resample}, "random_state": [seed_a, seed_b]})
+                        "config": {"clustering": clustering, "kernel": kernel, "resample": resample}, "random_state": [seed_a, seed_b],
+                        "repro_like": like_tag})
     return bad
 
 
@@ -168,6 +236,14 @@ def _ops():
                     s.sample()
         return f
 
+    def tiny_warmup():
+        s = _sampler(False, "rwm", "syst", like=_like_tiny, n_particles=4)
+        with _quiet(), warnings.catch_warnings():
+            warnings.simplefilter("ignore")
+            s._core._initialize_fresh()
+            s.sample()
+            s.sample()
+
     def seeded_run():
         s = _sampler(False, "rwm", "syst", random_state=7)
         with _quiet(), warnings.catch_warnings():
@@ -187,6 +263,8 @@ def _ops():
         "5 sampler iterations (clustering on, tpcn)": it(True, "tpcn"),
         "5 sampler iterations (clustering off, rwm)": it(False, "rwm"),
         "5 sampler iterations (clustering on, rwm)": it(True, "rwm"),
+        # support 1/80 and 4 particles: the warm-up batch almost always holds no finite draw and is redrawn (Mutator.run loop)
+        "2 warm-up iterations (tiny support, redraws)": tiny_warmup,
         # read-side operations of a SEEDED sampler that has already run (set up before the ambient seed is applied):
         # the documented seeding point is the start of a fresh run, nothing after it may put the stream back
         "seeded sampler: posterior(resample=True)": (seeded_run, lambda s: s.posterior(resample=True)),
@@ -204,30 +282,675 @@ def reset_violations(names=None):
     for name, op in ops.items():
         if names and name not in names:
             continue
-        after = []
-        for pre in (1, 2):
-            arg = ()
-            if isinstance(op, tuple):
-                arg = (op[0](),)
-            np.random.seed(pre)
-            with _quiet(), warnings.catch_warnings():
-                warnings.simplefilter("ignore")
-                (op[1] if isinstance(op, tuple) else op)(*arg)
-            after.append(np.random.rand(3).tolist())
-        if after[0] == after[1]:
-            bad.append({"what": f"after `{name}` the global stream is the same for ambient seeds 1 and 2 (first draws {after[0]})", "op": name})
+        # correct code never gives equal draws for two ambient seeds; an operation whose reset path is taken only with some
+        # probability (the redraw loop) is tried on several pairs
+        for pair in (((1, 2), (3, 4), (5, 6)) if "tiny" in name else ((1, 2),)):
+            after = []
+            for pre in pair:
+                arg = ()
+                if isinstance(op, tuple):
+                    arg = (op[0](),)
+                np.random.seed(pre)
+                with _quiet(), warnings.catch_warnings():
+                    warnings.simplefilter("ignore")
+                    (op[1] if isinstance(op, tuple) else op)(*arg)
+                after.append(np.random.rand(3).tolist())
+            if after[0] == after[1]:
+                bad.append({"what": f"after `{name}` the global stream is the same for ambient seeds {pair[0]} and {pair[1]} (first draws {after[0]})", "op": name})
+                break
     return bad
+
+
+# ============================================================================================ clause-audit suites (wave 2)
+FUEL = 1000000
+
+
+def _lattice(tier):
+    """(clustering, kernel, resample, likelihood tag, seed) — every combination of the statement's quantifier"""
+    base = [(cl, k, r) for cl in (False, True) for k in ("tpcn", "rwm") for r in ("mult", "syst")]
+    out = []
+    rq = common.rng_for("c09-lattice-quick")
+    for i, (cl, k, r) in enumerate(base):
+        out.append((cl, k, r, "half" if i % 2 == 0 else "plain", 11 + i if common.seed() == 0 else rq.randrange(0, 2 ** 32)))
+    out.append((True, "tpcn", "mult", "bimodal", 5))      # cluster splits: more than one label group
+    out.append((True, "rwm", "syst", "bimodal", 6))
+    out.append((False, "rwm", "mult", "tiny", 7))         # tiny support: warm-up batches without a finite draw are redrawn
+    out.append((False, "tpcn", "syst", "tiny", 8))
+    if tier == "thorough":
+        rng = common.rng_for("c09-lattice")
+        for rep in range(2):
+            for cl, k, r in base:
+                for like in ("half", "plain", "bimodal"):
+                    out.append((cl, k, r, like, rng.randrange(0, 2 ** 32) if rep else rng.randrange(0, 1000)))
+    return out
+
+
+def _mk(cfg, random_state="cfg", **kw):
+    cl, k, r, like, seed = cfg
+    lk = {"half": _like_half, "plain": None, "bimodal": _like_bimodal, "tiny": _like_tiny}[like]
+    if like == "plain" and cl:
+        lk = lambda x: -0.5 * float(np.sum((x - 0.3) ** 2)) * 2.0   # noqa: E731  (unimodal target with clustering on)
+    if like == "bimodal":
+        kw.setdefault("n_particles", 48)
+    return _sampler(cl, k, r, random_state=seed if isinstance(random_state, str) else random_state, like=lk, **kw)
+
+
+def _n_total(cfg):
+    return 192 if cfg[3] == "bimodal" else 64
+
+
+def _observed_run(cfg, random_state="cfg", ambient=None, keep_calls=False, resume=None, **kw):
+    """one instrumented real run -> (sampler, EventLog, [IterObs], final generator state)"""
+    s = _mk(cfg, random_state=random_state, **kw)
+    log, obs = ob.EventLog(keep_calls=keep_calls), []
+    if ambient is not None:
+        np.random.seed(ambient)
+    with ob.trace_events(log), ob.observe_iterations(s, log, obs):
+        ob.run_quiet(lambda: s.run(n_total=_n_total(cfg), progress=False, resume_state_path=resume))
+    return s, log, obs, ob.state_key()
+
+
+def suite_plumbing(tier):
+    c = Corr("rng-plumbing", "exact (random_state reaches config, property and checkpoint unchanged)")
+    import tempfile
+    import dill
+    for rs in (None, 0, 1, 7, 2 ** 32 - 1):
+        np.random.seed(4242)
+        before = ob.state_key()
+        s = _sampler(False, "rwm", "syst", random_state=rs)
+        sc = _sampler(True, "tpcn", "mult", random_state=rs)
+        if ob.state_key() != before:
+            c.disagree(input={"random_state": rs}, impl="constructing a sampler changed the process-wide generator state",
+                       model="C09_construction_uses_no_rng")
+        del sc
+        got = {"property": s.random_state, "config": s._core.config.random_state}
+        with tempfile.TemporaryDirectory() as d:
+            ob.run_quiet(lambda: (s._core._initialize_fresh(), s.sample(), s.save_state(os.path.join(d, "p.state"))))
+            with open(os.path.join(d, "p.state"), "rb") as fh:
+                got["checkpoint"] = dill.load(fh).get("random_state", "missing")
+        c.case(("plumbing", rs), True)
+        c.count("seed_none" if rs is None else "seed_int")
+        for k, v in got.items():
+            if v != rs or type(v) is not type(rs):
+                c.disagree(input={"random_state": rs}, impl={k: repr(v)}, model="random_state handed on unchanged (C09_random_state_plumbing)")
+        try:
+            s._core.config.random_state = 99
+            c.disagree(input={"random_state": rs}, impl="config.random_state is assignable", model="SamplerConfig is frozen")
+        except Exception:
+            pass
+    c.sample({"values": [None, 0, 1, 7, 2 ** 32 - 1]})
+    return c
+
+
+def suite_requests(tier):
+    """model program of every iteration / of the whole run vs the value-level event log of the real code"""
+    c = Corr("iteration-requests", "exact (run-length-encoded event sequences and stream positions)")
+    drv = common.Driver()
+    lines, expect, keys = [], [], []
+    for cfg in _lattice(tier):
+        s, log, obs, _ = _observed_run(cfg)
+        args = ob.cfg_args(s)
+        for i, o in enumerate(obs):
+            ev = [e for e in log.events if e["it"] == i]
+            lines.append(f"c09.iter {args} fuel={FUEL} it={o.token()}")
+            expect.append(ob.rle(ev))
+            keys.append(("iter", cfg, i, o.token()))
+            lines.append(f"c09.count {args} it={o.token()}")
+            expect.append(str(sum(e["n"] for e in ev if not e["tag"].startswith("p") and ":" not in e["tag"])))
+            keys.append(None)
+            c.count("warm" if o.warm else "anneal")
+            if o.warm and o.n_inf and o.n_fin:
+                c.count("warm_with_replacement_picks")
+            if o.warm and o.discarded:
+                c.count("warm_with_discarded_batches")
+                c.count("discarded_batches", o.discarded)
+            if not o.warm:
+                c.count(f"sweeps={min(o.steps, 5)}{'+' if o.steps > 5 else ''}")
+                if o.groups and len(o.groups) > 1:
+                    c.count("several_label_groups")
+                if o.refit and len(o.fits) > 3:
+                    c.count("cluster_split_tried_deeper")
+        # whole run: seeding first, then the iterations; positions at which the iterations start
+        its = " ".join(f"i{i}={o.token()}" for i, o in enumerate(obs))
+        lines.append(f"c09.run {args} fuel={FUEL} rs={cfg[4]} resume=fresh n={len(obs)} {its}")
+        starts, pos = [], 0
+        for i in range(len(obs)):
+            starts.append(pos)
+            pos += sum(e["n"] for e in log.events if e["it"] == i and e["tag"] in ("U", "Z", "G", "I"))
+        expect.append(ob.rle(log.events) + " starts=" + (",".join(map(str, starts)) if starts else "-"))
+        keys.append(("run", cfg, len(obs)))
+        outside = [e for e in log.events if e["it"] == -1 and not e["tag"].startswith("S:")]
+        if outside:
+            c.disagree(input=cfg, impl=f"RNG use outside any iteration: {ob.rle(outside)[:80]}", model="only the seeding precedes the iterations")
+    out = drv.batch(lines)
+    for ln, o, e, k in zip(lines, out, expect, keys):
+        if k is not None:
+            c.case(k, k[0] == "run" or not k[3].startswith("w/0/0/"))
+        if o != e:
+            c.disagree(input=ln[:300], impl=e[:300], model=o[:300])
+    c.sample({"op": lines[0], "model_and_real": out[0]})
+    return c
+
+
+def _replay_calls(events, gen):
+    """replay the recorded process-wide calls on `gen`; returns index of the first call whose result differs (or None)"""
+    for j, e in enumerate(events):
+        if ":" in e["tag"] or e["tag"].startswith("p"):
+            continue
+        f = getattr(gen, e["name"])
+        r = f(*e["args"], **e["kwargs"])
+        if not np.array_equal(np.asarray(r), np.asarray(e["result"])):
+            return j
+    return None
+
+
+def stream_violations(configs):
+    """property oracle on the REAL code: an uninterrupted run in which an iteration starts from a generator state an earlier
+    iteration started from, or receives exactly the numbers an earlier iteration received"""
+    bad = []
+    for cfg in configs:
+        s, log, obs, _ = _observed_run(cfg, keep_calls=True)
+        seen = {}
+        for i, o in enumerate(obs):
+            first = [e for e in log.events if e["it"] == i and e["tag"] in ("U", "Z", "G", "I") and e.get("result") is not None]
+            sig = None
+            if first:
+                sig = (first[0]["name"], np.asarray(first[0]["result"]).ravel()[:8].tobytes())
+            for key in ((("state",) + o.start_state), ("values", sig) if sig else None):
+                if key is None:
+                    continue
+                if key in seen:
+                    bad.append({"what": f"iteration {i} of a run with random_state={cfg[4]} replays iteration {seen[key]} "
+                                        f"({'same generator state at its start' if key[0] == 'state' else 'same first numbers drawn'})",
+                                "config": {"clustering": cfg[0], "kernel": cfg[1], "resample": cfg[2]}, "random_state": cfg[4],
+                                "like": cfg[3], "stream": True})
+                    break
+                seen[key] = i
+            else:
+                continue
+            break
+    return bad
+
+
+def suite_stream(tier):
+    c = Corr("stream-replay", "exact (bit-identical values and final generator state against a fresh RandomState)")
+    cfgs = _lattice(tier)
+    if tier == "quick":
+        cfgs = cfgs[:6] + cfgs[8:9] + cfgs[10:11]
+    all_states = {}
+    for n, cfg in enumerate(cfgs):
+        seeded = n % 3 != 2
+        ambient = 1000 + n
+        s, log, obs, final = _observed_run(cfg, random_state="cfg" if seeded else None, ambient=ambient, keep_calls=True)
+        c.case(("stream", cfg, seeded), True)
+        c.count("seeded" if seeded else "unseeded_ambient")
+        gen = np.random.RandomState(cfg[4] if seeded else ambient)
+        seeds = [e["tag"] for e in log.events if e["tag"].startswith("S:")]
+        want = [f"S:{cfg[4]}"] if seeded else []
+        if seeds != want:
+            c.disagree(input=cfg, impl=f"seeding events {seeds}", model=f"{want} (initFresh, then seed-free iterations)")
+            continue
+        j = _replay_calls(log.events, gen)
+        if j is not None:
+            e = log.events[j]
+            c.disagree(input=cfg, impl=f"call #{j} {e['name']} at {e['site']} returned numbers that are not the next segment of the stream",
+                       model="gvals log = emit g (gkinds log) (seed a)  (C09_run_fresh_log_is_stream)")
+            continue
+        if ob.state_key(gen.get_state()) != final:
+            c.disagree(input=cfg, impl="final process-wide generator state differs from the replayed stream: a draw or seeding bypassed the wrapped numpy.random attributes",
+                       model="final state = advance g (gkinds log) (seed a)")
+        starts = [o.start_state for o in obs]
+        if len(set(starts)) != len(starts):
+            c.disagree(input=cfg, impl="two iterations start from the same generator state", model="C09_sampler_iterations_never_replay")
+        for o in obs:
+            if o.end_state == o.start_state:
+                c.disagree(input=cfg, impl="an iteration left the generator state unchanged", model="C09_iteration_draws: every iteration draws")
+        stream_id = ("mt19937", cfg[4] if seeded else ambient)
+        for st in starts:
+            if st in all_states and all_states[st] != stream_id:
+                c.disagree(input=cfg, impl=f"generator state shared with a run on another stream {all_states[st]}", model="differently seeded runs never replay")
+            all_states[st] = stream_id
+        c.count("iterations", len(obs))
+        c.count("process_wide_values", sum(e["n"] for e in log.events if e["tag"] in ("U", "Z", "G", "I")))
+    c.sample({"config": cfgs[0], "check": "recorded calls replayed on RandomState(seed): identical values, identical final state"})
+    return c
+
+
+def suite_fits(tier):
+    c = Corr("fit-streams", "exact (generator state before/after fits; model event sequence; private values)")
+    from tempest.cluster import HierarchicalGaussianMixture, GaussianMixture
+    drv = common.Driver()
+    rng = np.random.RandomState(common.seed() + 17)
+    n_sets = 6 if tier == "quick" else 40
+    lines, expect = [], []
+    for t in range(n_sets):
+        d = 1 + t % 3
+        k = 1 + t % 3
+        X = np.vstack([rng.randn(40 + (5 * t) % 20, d) * 0.03 + 0.15 + 0.7 * (j / max(1, k - 1) if k > 1 else 0) for j in range(k)])
+        w = rng.rand(len(X)) + 0.5
+        np.random.seed(300 + t)
+        before = ob.state_key()
+        log = ob.EventLog(keep_calls=True)
+        normalize = bool(t % 2)
+        with ob.trace_events(log):
+            h = ob.run_quiet(lambda: HierarchicalGaussianMixture(normalize=normalize, n_init=1 + t % 2).fit(X, w))
+            ob.run_quiet(lambda: (h.predict(X), h.predict_proba(X)))
+        c.case(("hgmm", t, d, k, normalize), True)
+        c.count(f"hgmm_clusters={h.n_clusters_}")
+        if ob.state_key() != before:
+            c.disagree(input=("hgmm", t), impl="process-wide generator state changed by HierarchicalGaussianMixture.fit/predict",
+                       model="C09_hgmm_fit_global_untouched: state after = state before")
+        glob = [e for e in log.events if not e["tag"].startswith("p")]
+        if glob:
+            c.disagree(input=("hgmm", t), impl=f"process-wide events {ob.rle(glob)[:80]}", model="no process-wide event")
+        # the private generator restarts from 42 at every mixture fit: its numbers are RandomState(42)'s, every time
+        seg, ref = [], None
+        for e in log.events + [{"tag": "pS:end", "result": None}]:
+            if e["tag"].startswith("pS:"):
+                if ref is not None:
+                    want = np.random.RandomState(42).rand(len(seg)) if seg else np.array([])
+                    if not np.array_equal(np.array(seg, dtype=float), want):
+                        c.disagree(input=("hgmm", t), impl="private initialisation numbers are not the stream of RandomState(42) from position 0",
+                                   model="C09_gmm_seeded_fit_private_values")
+                if e["tag"] not in ("pS:42", "pS:end"):
+                    c.disagree(input=("hgmm", t), impl=f"private generator created from {e['tag']}", model="literal 42 (gmmInstantiations)")
+                seg, ref = [], e["tag"]
+            elif e["tag"].startswith("p") and e.get("result") is not None:
+                seg += list(np.asarray(e["result"], dtype=float).ravel())
+        # direct mixture fits: with and without random_state
+        for rs in (None, 3 + t):
+            ni, nc = 1 + t % 2, 1 + (t // 2) % 3
+            np.random.seed(500 + t)
+            before = ob.state_key()
+            log2 = ob.EventLog()
+            with ob.trace_events(log2):
+                ob.run_quiet(lambda: GaussianMixture(n_components=nc, n_init=ni, random_state=rs).fit(X, w))
+            lines.append(f"c09.gmm rs={'none' if rs is None else rs} ninit={ni} ncomp={nc}")
+            expect.append(ob.rle(log2.events))
+            c.case(("gmm", t, rs is None, ni, nc), True)
+            c.count("gmm_unseeded" if rs is None else "gmm_seeded")
+            after = ob.state_key()
+            if rs is not None and after != before:
+                c.disagree(input=("gmm", t, rs), impl="process-wide state changed by a fit with random_state", model="C09_gmm_seeded_fit_global_untouched")
+            if rs is None:
+                g = np.random.RandomState(500 + t)
+                g.random_sample(ni * nc)
+                if ob.state_key(g.get_state()) != after:
+                    c.disagree(input=("gmm", t, None), impl="process-wide state after an unseeded fit is not the ambient state advanced by n_init*n_components doubles",
+                               model="C09_gmm_unseeded_fit_draws_global")
+    # read-side operations of a sampler that has run: posterior(resample=True) takes ONE uniform (systematicResample none),
+    # everything else nothing
+    for cfgr in ((False, "rwm", "syst", "plain", 41), (True, "tpcn", "mult", "bimodal", 42)):
+        sr = _run_cfg(_mk(cfgr), cfgr)
+        for tag, op, want in (("posterior()", lambda: sr.posterior(), "-"),
+                              ("posterior(resample=True)", lambda: sr.posterior(resample=True), None),
+                              ("posterior(resample=True, trim_importance_weights=False)",
+                               lambda: sr.posterior(resample=True, trim_importance_weights=False), None),
+                              ("posterior(return_logw=True)", lambda: sr.posterior(return_logw=True), "-"),
+                              ("evidence()", lambda: sr.evidence(), "-"), ("results()", lambda: sr.results(), "-"),
+                              ("save_state", None, "-")):
+            log4 = ob.EventLog()
+            import tempfile
+            with tempfile.TemporaryDirectory() as dsave, ob.trace_events(log4):
+                ob.run_quiet(op if op is not None else (lambda: sr.save_state(os.path.join(dsave, "x.state"))))
+            c.case(("read-side", cfgr[0], tag), True)
+            c.count("read_side_ops")
+            if want is None:
+                lines.append("c09.syst rs=none")
+                expect.append(ob.rle(log4.events))
+            elif ob.rle(log4.events) != want:
+                c.disagree(input=tag, impl=ob.rle(log4.events), model=f"{want} (no RNG effect)")
+    from tempest.tools import systematic_resample
+    for rs in (None, 0, 9):
+        log3 = ob.EventLog()
+        with ob.trace_events(log3):
+            systematic_resample(6, np.ones(6) / 6, **({} if rs is None else {"random_state": rs}))
+        lines.append(f"c09.syst rs={'none' if rs is None else rs}")
+        expect.append(ob.rle(log3.events))
+        c.case(("syst", rs), True)
+    out = drv.batch(lines)
+    for ln, o, e in zip(lines, out, expect):
+        if o != e:
+            c.disagree(input=ln, impl=e, model=o)
+    c.sample({"op": lines[0], "model_and_real": out[0]})
+    return c
+
+
+def _positions(log, n_iter):
+    starts, pos = [], 0
+    for i in range(n_iter):
+        starts.append(pos)
+        pos += sum(e["n"] for e in log.events if e["it"] == i and e["tag"] in ("U", "Z", "G", "I"))
+    return starts, pos
+
+
+def _writer(cfg, d, random_state="cfg", ambient=None):
+    """an instrumented run that writes a checkpoint before every iteration (save_every=1)"""
+    s = _mk(cfg, random_state=random_state, output_dir=d, output_label="ck")
+    log, obs = ob.EventLog(), []
+    if ambient is not None:
+        np.random.seed(ambient)
+    with ob.trace_events(log), ob.observe_iterations(s, log, obs):
+        ob.run_quiet(lambda: s.run(n_total=_n_total(cfg), progress=False, save_every=1))
+    cks = {int(f.split("_")[1].split(".")[0]): os.path.join(d, f) for f in os.listdir(d)
+           if f.startswith("ck_") and not f.endswith("final.state")}
+    return s, log, obs, cks
+
+
+def _saved_rng_state(path):
+    import dill
+    with open(path, "rb") as fh:
+        return dill.load(fh)["rng_state"]
+
+
+def resume_violations(configs):
+    """property oracle on the REAL code: a run resumed from a checkpoint that receives again numbers the writer had already
+    consumed (its first iteration starts from a generator state at which an EARLIER iteration of the writer started, or its
+    first batch of prior draws is a copy of the writer's first batch)"""
+    import tempfile
+    bad = []
+    for cfg in configs:
+        with tempfile.TemporaryDirectory() as d:
+            s0, log0, obs0, cks = _writer(cfg, d)
+            for k in sorted(cks)[:1] + sorted(cks)[-1:]:
+                s, log, obs, _ = _observed_run(cfg, random_state=cfg[4], ambient=999, resume=cks[k])
+                if not obs:
+                    continue
+                earlier = [o.start_state for o in obs0[:k]]
+                u = s.state.get_history("u")
+                dup = len(u) > k and np.array_equal(u[k], u[0])
+                if obs[0].start_state in earlier or dup:
+                    bad.append({"what": f"run(resume_state_path=checkpoint written before iteration {k}) of a sampler with random_state={cfg[4]} "
+                                        f"replays the stream of the run that wrote it ("
+                                        f"{'resumed batch == first batch bit for bit' if dup else 'starts from the generator state of an earlier iteration'})",
+                                "config": {"clustering": cfg[0], "kernel": cfg[1], "resample": cfg[2]}, "random_state": cfg[4],
+                                "like": cfg[3], "resume": k})
+                    break
+    return bad
+
+
+def rerun_violations(configs):
+    """property oracle on the REAL code: a second run() on a sampler that has run (or load_state(); run()) whose first
+    iteration starts from a generator state at which an iteration of the first run started — the stream was put back"""
+    bad = []
+    for cfg in configs:
+        s = _mk(cfg)
+        log, obs = ob.EventLog(), []
+        np.random.seed(808)
+        with ob.trace_events(log), ob.observe_iterations(s, log, obs):
+            ob.run_quiet(lambda: s.run(n_total=_n_total(cfg), progress=False))
+            n1 = len(obs)
+            ob.run_quiet(lambda: s.run(n_total=4 * _n_total(cfg), progress=False))
+        if len(obs) > n1 and obs[n1].start_state in [o.start_state for o in obs[:n1]]:
+            bad.append({"what": f"a second run() of a sampler with random_state={cfg[4]} starts from the generator state at which "
+                                f"iteration {[o.start_state for o in obs[:n1]].index(obs[n1].start_state)} of its first run started",
+                        "config": {"clustering": cfg[0], "kernel": cfg[1], "resample": cfg[2]}, "random_state": cfg[4],
+                        "like": cfg[3], "rerun": True})
+    return bad
+
+
+def suite_resume(tier):
+    """what save / run(resume_state_path=…) do to the stream, against Model.RngRun (saveState / loadState / runSampling)"""
+    import tempfile
+    import dill
+    c = Corr("resume-semantics", "exact (generator state restored = state at save; event log vs model; fingerprints)")
+    drv = common.Driver()
+    cfgs = [(False, "rwm", "syst", "plain", 21), (True, "tpcn", "mult", "bimodal", 22), (False, "tpcn", "mult", "half", None)]
+    if tier == "thorough":
+        cfgs += [(True, "rwm", "syst", "plain", 24), (False, "rwm", "mult", "half", 25), (True, "tpcn", "syst", "bimodal", None)]
+    lines, expect = [], []
+    for cfg in cfgs:
+        seeded = cfg[4] is not None
+        with tempfile.TemporaryDirectory() as d:
+            s0, log0, obs0, cks = _writer(cfg, d, ambient=555)
+            fp0 = _fingerprint(s0)
+            # writing checkpoints does not perturb the run (C09_saving_does_not_perturb)
+            np.random.seed(555)
+            if _fingerprint(_run_cfg(_mk(cfg), cfg)) != fp0:
+                c.disagree(input=cfg, impl="the run with save_every=1 differs from the run without checkpoints",
+                           model="C09_saving_does_not_perturb")
+            c.case(("saving", cfg), True)
+            if len(cks) < 3:
+                c.error = "no checkpoints written"
+                continue
+            if any(":" in e["tag"] and not e["tag"].startswith("pS") for e in log0.events if e["it"] >= 0):
+                c.disagree(input=cfg, impl="writing checkpoints seeded / restored the stream", model="saveState: getst only")
+            pos0, _ = _positions(log0, len(obs0))
+            ks = sorted(cks)
+            points = [("warm-up", ks[0]), ("annealing", ks[-1])] + ([("middle", ks[len(ks) // 2])] if tier == "thorough" else [])
+            for which, k in points:
+                fps = []
+                for ambient, ctor_seed in (((1, cfg[4]), (2, 4040)) if (tier == "thorough" or which == "warm-up") else ((1, 4040),)):
+                    s, log, obs, _ = _observed_run(cfg, random_state=ctor_seed, ambient=ambient, resume=cks[k])
+                    fps.append(_fingerprint(s))
+                    if ambient != 1:
+                        continue
+                    tags = [e["tag"] for e in log.events if ":" in e["tag"] and not e["tag"].startswith("p")]
+                    if tags != ["R:"]:
+                        c.disagree(input=(cfg, which), impl=f"seeding / restore events of the resumed run: {tags}",
+                                   model="exactly one restore (loadState (some s)), no seeding")
+                    # position restored = position at save
+                    if obs and obs[0].start_state != obs0[k].start_state:
+                        c.disagree(input=(cfg, which), impl="generator state after load differs from the state the writer had when it saved",
+                                   model="C09_resume_continues_stream / C09_save_reads_position")
+                    # iteration by iteration the resumed run is on the writer's stream
+                    for j, o in enumerate(obs):
+                        if k + j < len(obs0) and o.start_state != obs0[k + j].start_state:
+                            c.disagree(input=(cfg, which, j), impl="resumed iteration starts from another generator state than the uninterrupted run",
+                                       model="C09_resume_continues_stream")
+                            break
+                    args = ob.cfg_args(s)
+                    allobs = obs0[:k] + obs
+                    its = " ".join(f"i{i}={o.token()}" for i, o in enumerate(allobs))
+                    lines.append(f"c09.run {args} fuel={FUEL} rs={'none' if cfg[4] is None else cfg[4]} resume=at:{k} n={len(allobs)} {its}")
+                    rel, _ = _positions(log, len(obs))
+                    expect.append(ob.rle(log.events) + " starts=" + (",".join(str(pos0[k] + p) for p in rel) if rel else "-"))
+                    u = s.state.get_history("u")
+                    if len(u) > k and np.array_equal(u[k], u[0]):
+                        c.count("resumed_batch_equals_first_batch")
+                c.case(("resume", cfg, which), True)
+                c.count(f"resume_{which}{'' if seeded else '_unseeded_writer'}")
+                if fps[0] != fps[-1]:
+                    c.disagree(input=(cfg, which), impl="resumed runs differ with the ambient stream or the constructor's random_state",
+                               model="C09_run_resume_deterministic: a function of the checkpoint alone")
+                if fps[0] != fp0:
+                    c.disagree(input=(cfg, which), impl="the resumed run differs from the uninterrupted run",
+                               model="C09_resume_continues_stream: same final state and data as the uninterrupted run")
+            # the manual flow of the user guide: load_state(path); run() — the loaded state holds a history, so run() takes the
+            # CONTINUE branch (no seeding; since aeb0399) and is the same as run(resume_state_path=path); a second run() on a
+            # finished sampler continues likewise
+            if cfg[3] != "bimodal":
+                manual = os.path.join(d, "manual.state")
+                s0.save_state(manual)
+                fpm = []
+                for how in ("load_state+run", "resume_state_path"):
+                    sb = _mk(cfg)
+                    logl = ob.EventLog()
+                    np.random.seed(4)
+                    if how == "load_state+run":
+                        with ob.trace_events(logl):
+                            ob.run_quiet(lambda: sb.load_state(manual))
+                        if ob.rle(logl.events) != "R:":
+                            c.disagree(input=(cfg, "load_state"), impl=ob.rle(logl.events), model="R: (loadState (some s))")
+                    logb, obsb = ob.EventLog(), []
+                    with ob.trace_events(logb), ob.observe_iterations(sb, logb, obsb):
+                        ob.run_quiet(lambda: sb.run(n_total=4 * _n_total(cfg), progress=False,
+                                                    resume_state_path=manual if how == "resume_state_path" else None))
+                    fpm.append(_fingerprint(sb))
+                    if how == "load_state+run":
+                        args = ob.cfg_args(sb)
+                        its = " ".join(f"i{i}={o.token()}" for i, o in enumerate(obsb))
+                        lines.append(f"c09.run {args} fuel={FUEL} rs={'none' if cfg[4] is None else cfg[4]} resume=continue n={len(obsb)} {its}")
+                        rel, _ = _positions(logb, len(obsb))
+                        expect.append(ob.rle(logb.events) + " starts=" + (",".join(map(str, rel)) if rel else "-"))
+                        if obsb and obsb[0].start_state != ob.state_key(_saved_rng_state(manual)):
+                            c.disagree(input=(cfg, how), impl="the continuation does not start at the position stored in the checkpoint",
+                                       model="C09_load_then_run_is_resume / C09_resume_continues_stream")
+                if fpm[0] != fpm[1]:
+                    c.disagree(input=(cfg, "manual continue"), impl="load_state(p); run() differs from run(resume_state_path=p)",
+                               model="C09_load_then_run_is_resume")
+                # extending a finished run: run(n); run(4n) on one object == run(4n) once? (same stream, nothing replayed):
+                # the single run stops later than the first, so compare with a writer that ran to 4n from the start
+                sx = _mk(cfg)
+                np.random.seed(555)
+                logx, obsx = ob.EventLog(), []
+                ob.run_quiet(lambda: sx.run(n_total=_n_total(cfg), progress=False))
+                with ob.trace_events(logx), ob.observe_iterations(sx, logx, obsx):
+                    ob.run_quiet(lambda: sx.run(n_total=4 * _n_total(cfg), progress=False))
+                if any(":" in e["tag"] and not e["tag"].startswith("p") for e in logx.events):
+                    c.disagree(input=(cfg, "second run()"), impl=f"seeding / restore events in a second run(): {ob.rle(logx.events)[:60]}",
+                               model="C09_run_with_history_continues: no seeding")
+                if _fingerprint(sx) != fpm[0]:
+                    c.disagree(input=(cfg, "second run()"), impl="run(n); run(4n) on one sampler differs from continuing its saved state",
+                               model="C09_second_run_continues")
+                c.case(("load_state-then-run", cfg), True)
+                c.case(("second-run", cfg), True)
+                c.count("manual_continue")
+            # a checkpoint WITHOUT stored position (older file format): the resumed run continues the ambient stream
+            with open(cks[ks[1]], "rb") as fh:
+                dd = dill.load(fh)
+            dd.pop("rng_state", None)
+            legacy = os.path.join(d, "legacy.state")
+            with open(legacy, "wb") as fh:
+                dill.dump(dd, fh)
+            fu = []
+            for ambient in (1, 2):
+                s, log, obs, final = _observed_run(cfg, random_state=99, ambient=ambient, resume=legacy, keep_calls=True)
+                fu.append(_fingerprint(s))
+                if any(":" in e["tag"] and not e["tag"].startswith("p") for e in log.events):
+                    c.disagree(input=(cfg, "legacy checkpoint"), impl="the resumed run seeded / restored the process-wide stream",
+                               model="loadState none = nothing (C09_run_resume_legacy_on_orbit)")
+                gen = np.random.RandomState(ambient)
+                if _replay_calls(log.events, gen) is not None or ob.state_key(gen.get_state()) != final:
+                    c.disagree(input=(cfg, "legacy checkpoint"), impl="the resumed run did not continue the ambient stream",
+                               model="C09_run_resume_legacy_on_orbit")
+                if ambient == 1:
+                    args = ob.cfg_args(s)
+                    its = " ".join(f"i{i}={o.token()}" for i, o in enumerate(obs))
+                    lines.append(f"c09.run {args} fuel={FUEL} rs=99 resume=legacy n={len(obs)} {its}")
+                    rel, _ = _positions(log, len(obs))
+                    expect.append(ob.rle(log.events) + " starts=" + (",".join(map(str, rel)) if rel else "-"))
+            c.case(("resume-legacy", cfg), True)
+            c.count("resume_legacy_checkpoint")
+            if fu[0] == fu[1]:
+                c.disagree(input=(cfg, "legacy checkpoint"), impl="resumed runs identical for ambient seeds 1 and 2",
+                           model="ambient dependence preserved")
+    out = drv.batch(lines)
+    for ln, o, e in zip(lines, out, expect):
+        if o != e:
+            c.disagree(input=ln[:300], impl=e[:300], model=o[:300])
+    if lines:
+        c.sample({"op": lines[0][:200], "model_and_real": out[0][:200]})
+    return c
+
+
+def suite_callgraph(tier):
+    from translate import g3_graph
+    c = Corr("call-graph", "exact (observed call edges ⊆ static over-approximated graph)")
+    a, spans = g3_graph.static_edges()
+    observed = set()
+    import tempfile
+    runs = [(True, "tpcn", "mult", "bimodal", 5), (False, "rwm", "syst", "half", 6)]
+    with ob.profile_edges(observed, spans):
+        for cfg in runs:
+            with tempfile.TemporaryDirectory() as d:
+                s = _mk(cfg, output_dir=d, output_label="cg")
+                ob.run_quiet(lambda: s.run(n_total=_n_total(cfg), progress=False, save_every=2))
+                ob.run_quiet(lambda: (s.posterior(), s.posterior(resample=True), s.evidence(), s.results(), s.random_state, s.beta))
+                ck = [f for f in os.listdir(d) if f.endswith("_2.state")]
+                s2 = _mk(cfg, output_dir=d, output_label="cg2")
+                ob.run_quiet(lambda: s2.run(n_total=_n_total(cfg), progress=False, resume_state_path=os.path.join(d, ck[0])))
+                s3 = _mk(cfg)
+                ob.run_quiet(lambda: s3.load_state(os.path.join(d, ck[0])))
+            c.case(("profiled-run", cfg), True)
+    edges = a["edges"]
+    funcs = a["funcs"]
+    missing = []
+    n = 0
+    for caller, callee in sorted(observed, key=str):
+        if isinstance(caller, tuple):
+            continue
+        n += 1
+        if callee not in edges[caller]:
+            missing.append(f"{funcs[caller].qual} -> {funcs[callee].qual}")
+    c.stats["observed_edges"] = n
+    c.stats["static_edges"] = sum(len(v) for v in edges.values())
+    c.stats["functions"] = len(funcs)
+    if missing:
+        c.disagree(input="profiled runs", impl=missing[:12], model="every call edge is in Gen.RngGraph.edges")
+    c.sample({"observed_edges": n, "example": [f"{funcs[a_].qual} -> {funcs[b_].qual}" for a_, b_ in sorted(x for x in observed if not isinstance(x[0], tuple))[:4]]})
+    return c
+
+
+class _OrderedPool:
+    """a pool whose map preserves input order (what the package assumes of a pool)"""
+
+    def __init__(self):
+        from multiprocessing.pool import ThreadPool
+        self._p = ThreadPool(2)
+
+    def map(self, f, xs):
+        return self._p.map(f, list(xs))
+
+    def close(self):
+        self._p.close()
+
+
+def pool_violations(configs):
+    bad = []
+    for cfg in configs:
+        np.random.seed(1)
+        serial = _fingerprint(_run_cfg(_mk(cfg), cfg))
+        for tag, mk in (("pool object with map", _OrderedPool), ("pool=1", lambda: 1)):
+            pool = mk()
+            try:
+                np.random.seed(2)
+                par = _fingerprint(_run_cfg(_mk(cfg, pool=pool), cfg))
+            finally:
+                if hasattr(pool, "close"):
+                    pool.close()
+            if par != serial:
+                bad.append({"what": f"random_state={cfg[4]} with {tag} differs from the serial run",
+                            "config": {"clustering": cfg[0], "kernel": cfg[1], "resample": cfg[2]}, "random_state": cfg[4],
+                            "like": cfg[3], "pool": tag})
+    return bad
+
+
+def _run_cfg(s, cfg):
+    ob.run_quiet(lambda: s.run(n_total=_n_total(cfg), progress=False))
+    return s
+
+
+def suite_pool(tier):
+    c = Corr("pool-reproducible", "exact (fingerprint with a pool = serial fingerprint)")
+    cfgs = [(False, "rwm", "syst", "plain", 31), (True, "tpcn", "mult", "bimodal", 32)]
+    if tier == "thorough":
+        cfgs += [(False, "tpcn", "mult", "half", 33), (True, "rwm", "syst", "plain", 34)]
+    for cfg in cfgs:
+        c.case(("pool", cfg), True)
+        for b in pool_violations([cfg]):
+            c.disagree(input=cfg, impl=b["what"], model="library draws happen in the parent process only; pool.map preserves order")
+    c.sample({"configs": cfgs})
+    return c
 
 
 def correspond(tier):
     out = [suite_sites(tier)]
     c = Corr("seeded-run-deterministic", "exact (bit-identical fingerprints)")
     configs = [(False, "rwm", "syst", 0, 1), (True, "tpcn", "mult", 7, 8), (True, "rwm", "syst", 3, 4), (False, "tpcn", "mult", 11, 12)]
+    configs.append((False, "rwm", "mult", 5, 6, "tiny"))     # warm-up batches redrawn (Mutator.run while-loop)
     if tier == "thorough":
         configs += [(cl, k, r, a, a + 1) for cl in (True, False) for k in ("tpcn", "rwm") for r in ("mult", "syst") for a in (20, 40, 60)]
     for cfg in configs:
         c.case(cfg, True)
         c.count("clustering" if cfg[0] else "no_clustering")
+        # hypothesis `hfirst` of C09_different_seeds_differ / C09_run_different_seeds_differ, checked on MT19937 itself:
+        # the first double of the two seeds differs (the first RNG event of a fresh run is the prior draw np.random.rand)
+        if np.random.RandomState(cfg[3]).random_sample() == np.random.RandomState(cfg[4]).random_sample():
+            c.count("hfirst_fails")
+            c.stats.setdefault("hfirst_failed_for", []).append([cfg[3], cfg[4]])
+        else:
+            c.count("hfirst_holds")
         for b in repro_violations([cfg]):
             c.disagree(input=cfg, impl=b["what"], model="exec g a (seedArg :: p) is independent of the ambient state (C09_seeded_run_deterministic)")
     c.sample({"config": configs[0], "check": "same random_state twice -> identical fingerprint; different -> different"})
@@ -239,6 +962,8 @@ def correspond(tier):
             c2.disagree(input=name, impl=b["what"], model="program without seedLit: post-state injective in the pre-state (C09_no_reseed_injective)")
     c2.sample({"ops": list(_ops())})
     out.append(c2)
+    out += [suite_plumbing(tier), suite_requests(tier), suite_stream(tier), suite_fits(tier), suite_resume(tier),
+            suite_callgraph(tier), suite_pool(tier)]
     return out
 
 
@@ -246,6 +971,17 @@ def search(tier, hints):
     found = reset_violations()
     configs = [(cl, k, r, a, a + 1) for cl in (True, False) for k in ("tpcn", "rwm") for r in ("mult", "syst") for a in ((0,) if tier == "quick" else (0, 5, 9))]
     found += repro_violations(configs)
+    if len(found) < 5:
+        found += repro_violations([(False, "rwm", "mult", 3, 4, "tiny"), (False, "tpcn", "syst", 0, 1, "tiny")])
+    if len(found) < 5:
+        lat = _lattice(tier)
+        found += stream_violations(lat if tier == "thorough" else lat[:4] + lat[8:10])
+    if len(found) < 5:
+        found += resume_violations([(False, "rwm", "syst", "plain", 21), (True, "tpcn", "mult", "bimodal", 22)])
+    if len(found) < 5:
+        found += rerun_violations([(False, "rwm", "syst", "plain", 21), (True, "tpcn", "mult", "plain", 23)])
+    if len(found) < 5:
+        found += pool_violations([(False, "rwm", "syst", "plain", 31), (True, "tpcn", "mult", "bimodal", 32)])
     return found[:5]
 
 
@@ -256,9 +992,14 @@ def replay(obj):
         return witnesses.ALL[f["replay"]["witness"]]()
     if "op" in f:
         b = reset_violations([f["op"]])
+    elif f.get("stream") or f.get("pool") or "resume" in f or f.get("rerun"):
+        cfg = f["config"]
+        t = (cfg["clustering"], cfg["kernel"], cfg["resample"], f.get("like", "plain"), f["random_state"])
+        b = (stream_violations([t]) if f.get("stream") else pool_violations([t]) if f.get("pool")
+             else rerun_violations([t]) if f.get("rerun") else resume_violations([t]))
     else:
         cfg = f["config"]
         rs = f["random_state"]
         a, bb = (rs if isinstance(rs, list) else (rs, rs + 1))
-        b = repro_violations([(cfg["clustering"], cfg["kernel"], cfg["resample"], a, bb)])
+        b = repro_violations([(cfg["clustering"], cfg["kernel"], cfg["resample"], a, bb) + ((f["repro_like"],) if f.get("repro_like") else ())])
     return {"fails": bool(b), "detail": b[:1]}
